@@ -16,25 +16,50 @@ SPEC = {
     "stages": [
         {"name": "ipgen_lockstep", "bin": "c15_ipgen", "model": "ipgen", "n_quick": 6000, "n_thorough": 600000,
          "shards": 4, "shards_thorough": 16},
-        # SLOT (coordinator): full-stack DHCP runs - 1..N DhcpClient machines started simultaneously on a paused
-        # runtime against one DhcpServer, hook-driven duplication/reordering; observed Offer/Request/Ack events
-        # and every DhcpClient::ip_address are to be validated against Model/DhcpProto.v
-        # (step/run/init are already extracted into ocaml/gen/ipgen_model.ml).
-        # {"name": "dhcp_fullstack", "bin": "c15_dhcp", "model": "ipgen", "kind": "validate", ...},
+        # the real DhcpServer / DhcpClient / Udp / Ipv4 / Arp / Pci in a child process per scenario (wired as
+        # dhcp_basic.rs); the recorded DHCP frames (hand-over to the network with its fate, hand-over to the tap),
+        # the clients' final ip_address fields and the server's final generator are replayed through the extracted
+        # Model/DhcpProto.v `step` (ocaml/ipgen_drv.ml, mode `dhcp`): the observation must be a run of the model
+        {"name": "dhcp_validate", "bin": "c15_dhcp", "model": "ipgen", "kind": "validate", "model_args": "dhcp",
+         "n_quick": 400, "n_thorough": 8000, "shards": 8, "shards_thorough": 16,
+         "trivial_re": r"(^(ERR|PANIC|REJECT))|( ; E (CRASH|HANG))", "timeout_quick": 600},
     ],
-    "rule": "cases = operation histories (constructor + 1..40 of block_subnet / fetch_ip / fetch_net / return_subnet / "
-            "return_ip / return of a block handed out earlier / is_available / block_reserved_ips) over pools that are "
-            "subnets of every mask, ranges (also inverted), subnets minus ends, none + unions made by returns, all, "
-            "blocked_out, with pools at 0.0.0.0 and 255.255.255.255 over-weighted; compared after every operation: "
-            "return value and the stored range set in set order; distinct = distinct case line; non-trivial = the "
-            "constructor did not panic",
+    "rule": "stage ipgen_lockstep: cases = operation histories (constructor + 1..40 of block_subnet / fetch_ip / "
+            "fetch_net / return_subnet / return_ip / return of a block handed out earlier / is_available / "
+            "block_reserved_ips) over pools that are subnets of every mask, ranges (also inverted), subnets minus ends, "
+            "none + unions made by returns, all, blocked_out, with pools at 0.0.0.0 and 255.255.255.255 over-weighted; "
+            "compared after every operation: return value and the stored range set in set order; non-trivial = the "
+            "constructor did not panic. "
+            "stage dhcp_validate: case = 1..6 DhcpClient machines + one DhcpServer on one Network::basic(), pool = "
+            "IpRange of 1..8 addresses | the range of a /29../32 subnet | IpGenerator::new_sub_no_ends of a /28../30 "
+            "(pools also at 0.0.0.16 and at 255.255.255.240..255), all clients started simultaneously, every client's "
+            "ip_address() awaited by a harness application (started 0..300 ms after the barrier, deadline 30 s virtual "
+            "/ 2 s real = HANG), per-frame plan from the case line: IPv4 frames duplicated (at most 0..2 per run), "
+            "dropped (0/4/8 %) or delayed (none | 40 % up to 20 ms | 80 % up to 150 ms | all up to 80 us = "
+            "reordering), ARP frames only delayed; 7 of 8 on the paused current-thread runtime, 1 of 8 on Multi(1|2|4) "
+            "(no duplication there); pool >= clients + duplications except in the hostile stream (1 of 14: pool "
+            "smaller than the number of clients), where the server's fetch_ip().unwrap() (dhcp_server.rs:60) kills the "
+            "process: that crash is only counted (stat crash_hostile_exhaustion), not judged - the DHCP clause "
+            "quantifies over pools that can serve the clients and 'reports exhaustion' is a clause about the generator; "
+            "the validator still requires that the model panics at exactly those runs (C15_dhcp_exhaustion_panics / "
+            "C15_dhcp_no_panic). Oracle on the trace alone: addresses offered/acknowledged to distinct clients are "
+            "disjoint and inside the pool, final fields pairwise distinct, ip_address() returned an address that an "
+            "Ack had carried to that client, the final field is the last Ack received, a client none of whose frames "
+            "was lost learns an address. distinct = distinct case line; non-trivial = the run ended DONE",
     "trusted_base": [
         "Coq 8.16.1 kernel (coqc; vm_compute only for the three closed witnesses)",
         "hand transcription ip_generator.rs / subnetting.rs (from_bitcount, Ipv4Net::new/new_1/id/broadcast) -> "
         "Model/IpGen.v, checked by lock-step on sampled histories; a mask is modelled by its bit count "
         "(ip & mask = ip - ip mod 2^(32-m))",
         "hand transcription dhcp_server.rs / dhcp_client.rs demux -> Model/DhcpProto.v (protocol level: messages "
-        "are (direction, client MAC, type, your_ip)); NOT tied to the code by runs yet (full-stack stage pending)",
+        "are (direction, client MAC, type, your_ip)); tied to the code by trace validation on sampled scenarios "
+        "(stage dhcp_validate): every DHCP frame handed to the network must be a message the model created, every "
+        "frame handed to a tap must be in flight in the model, the final ip_address fields and the final generator "
+        "must equal the model's, and the reconstructed label sequence must replay from `init` (the hypothesis of "
+        "C15_dhcp_distinct); the OCaml driver (not Coq) reconstructs the labels, searching over the unobservable "
+        "processing order of concurrently delivered Discovers",
+        "frames are decoded in the harness (IPv4/UDP by hand, the payload with the real DhcpMessage::from_bytes); a "
+        "client is identified by the MAC of its machine (Pci::mac_addresses)",
         "the stored ranges of IpGenerator are read through its public Debug impl and cross-checked by draining "
         "into_ip_iter() at the end of every history",
         "extraction (ExtrOcamlBasic only) + OCaml driver ocaml/ipgen_drv.ml + Rust harness c15_ipgen",
@@ -45,6 +70,11 @@ SPEC = {
         "addresses are u32 (gen_u32 / op_wf); mask lengths above 32 are clamped as from_bitcount does",
         "DHCP: distinctness is proved for traces without Release (any duplication) and for traces without duplication "
         "(any release); both together are refuted (C15_dhcp_dup_release_refuted); the real client never sends Release",
-        "DHCP: Notify-based waiting in DhcpClient::ip_address (lost-wakeup window) is runtime behaviour outside the model",
+        "partial for the DHCP clause: proof of the protocol logic + trace validation. UDP/IPv4/ARP/Pci underneath are "
+        "not modelled (a reply reaches exactly the machine whose MAC sent the request: C04/C06); ARP frames are never "
+        "dropped by the plan (a failed resolution makes DhcpClient::start's unwrap kill the process - outside C15)",
+        "DHCP: tokio scheduling and the Notify-based waiting in DhcpClient::ip_address (check the field, then "
+        "notified().await: a lost-wake-up window on multi-thread runtimes) are runtime behaviour the model cannot "
+        "exhibit; the oracle reports a client that received an Ack but whose ip_address() never returned",
     ],
 }
